@@ -155,7 +155,11 @@ func (ex *Exec) bindLets(env *Env, fc *FuncContract, in *State) error {
 		if err != nil {
 			return fmt.Errorf("let %s: %v", l.Name, err)
 		}
-		env.vars[l.Name] = v
+		// lets bind tighter than source-level locals of the same name
+		if env.bound == nil {
+			env.bound = map[string]EV{}
+		}
+		env.bound[l.Name] = v
 	}
 	return nil
 }
@@ -287,15 +291,23 @@ func (env *Env) modLocs(e Expr) ([]modLoc, error) {
 		}
 		switch id.Name {
 		case "sent", "recvd", "closed":
-			ch, err := env.evalTerm(x.Args[0])
+			cv, err := env.eval(x.Args[0])
 			if err != nil {
 				return nil, err
+			}
+			ch, ok := cv.V.(Term)
+			if !ok || cv.T == nil {
+				return nil, fmt.Errorf("modifies %s needs a typed channel", id.Name)
+			}
+			ct, ok := cv.T.Underlying().(*types.Chan)
+			if !ok {
+				return nil, fmt.Errorf("modifies %s needs a channel", id.Name)
 			}
 			sort := SLog
 			if id.Name == "closed" {
 				sort = SBool
 			}
-			return []modLoc{{"chan#" + id.Name, ArrSort(sort), LHeap1, ch}}, nil
+			return []modLoc{{chanHeap(ct.Elem(), id.Name), ArrSort(sort), LHeap1, ch}}, nil
 		case "calls":
 			s, ok := x.Args[0].(*ESel)
 			if !ok {
@@ -387,8 +399,20 @@ func (ex *Exec) applyContract(st *State, frID int, instr ssa.Instruction, fc *Fu
 		}
 		name := "calls:" + fc.Key
 		h := ex.heap(st, name, ArrSort(SLog))
-		st.Heaps[name] = Store(h, ref, App(SLog, "lsnoc", Select(h, ref), ex.valToElem(st, TupleV(args[1:]), nil)))
+		var ats []types.Type
+		for i := 0; i < sig.Params().Len(); i++ {
+			ats = append(ats, sig.Params().At(i).Type())
+		}
+		st.Heaps[name] = Store(h, ref, App(SLog, "lsnoc", Select(h, ref), ex.argsElem(st, args[1:], ats)))
 		ex.recordWrite(name, LHeap1, ref, ArrSort(SLog))
+	}
+	if !fc.Pure {
+		nt := ex.D.Fresh("top", SInt)
+		st.Assume(Ge(nt, st.Top))
+		st.Top = nt
+		if ex.disc != nil {
+			ex.disc.allocated = true
+		}
 	}
 	// havoc what the callee may modify
 	if fc.ModAll {
@@ -408,14 +432,14 @@ func (ex *Exec) applyContract(st *State, frID int, instr ssa.Instruction, fc *Fu
 					if l.sort == "" || strings.HasPrefix(l.sort, "(Array") {
 						// whole heap component
 						if cur, ok := st.Heaps[l.heap]; ok {
-							st.Heaps[l.heap] = ex.D.Fresh("hv:"+shortName(l.heap), cur.Sort)
+							st.Heaps[l.heap] = ex.freshHeapVal(st, l.heap, "hv:"+shortName(l.heap), cur.Sort)
 							ex.recordWriteAll(l.heap, cur.Sort)
 						} else {
 							ex.pendingHavoc(st, l.heap)
 						}
 						continue
 					}
-					st.Heaps[l.heap] = ex.D.Fresh("hv", l.sort)
+					st.Heaps[l.heap] = ex.freshHeapVal(st, l.heap, "hv", l.sort)
 					if ex.disc != nil {
 						ex.disc.writes = append(ex.disc.writes, writeRec{heap: l.heap, kind: LCell, sort: l.sort})
 					}
@@ -427,25 +451,21 @@ func (ex *Exec) applyContract(st *State, frID int, instr ssa.Instruction, fc *Fu
 		}
 		ex.applyHavoc(st, recs)
 	}
-	if !fc.Pure {
-		nt := ex.D.Fresh("top", SInt)
-		st.Assume(Ge(nt, st.Top))
-		st.Top = nt
-		if ex.disc != nil {
-			ex.disc.allocated = true
-		}
-	}
 	res := ex.freshResults(st, sig.Results(), "res:"+fc.Name)
+	if fc.Fresh && sig.Results().Len() > 0 {
+		ex.allocateFor(st, res[0], sig.Results().At(0).Type())
+	}
 	env.st = st
 	ex.bindResults(env, fc, sig, res)
 	if fc.Fresh && len(res) > 0 {
+		// a fresh result is either nil or an object allocated by the callee
 		switch r := res[0].(type) {
 		case Term:
-			st.Assume(Gt(r, pre.Top))
+			st.Assume(Or(Eq(r, IntT(0)), Gt(r, pre.Top)))
 		case SliceV:
-			st.Assume(Gt(r.Arr, pre.Top))
+			st.Assume(Or(Eq(r.Arr, IntT(0)), Gt(r.Arr, pre.Top)))
 		case IfaceV:
-			st.Assume(Gt(r.Ref, pre.Top))
+			st.Assume(Or(Eq(r.Ref, IntT(0)), Gt(r.Ref, pre.Top)))
 		}
 	}
 	for _, c := range fc.Ensures {
@@ -481,7 +501,7 @@ func (ex *Exec) havocAll(st *State) {
 	st.PendingBase = map[string]string{}
 	for _, name := range sortedKeys(st.Heaps) {
 		cur := st.Heaps[name]
-		st.Heaps[name] = ex.D.Fresh("hv:"+shortName(name), cur.Sort)
+		st.Heaps[name] = ex.freshHeapVal(st, name, "hv:"+shortName(name), cur.Sort)
 		ex.recordWriteAll(name, cur.Sort)
 	}
 	for g := range st.Globals {
@@ -582,6 +602,15 @@ func (ex *Exec) Verify() {
 			}
 			st.Assume(g)
 		}
+		for _, c := range fc.Defines {
+			g, err := env.evalBool(c.E)
+			if err != nil {
+				ex.bindingError(c, err)
+				continue
+			}
+			st.Assume(g)
+			ex.assumed["definitional axiom in "+fc.Key+": "+c.Src] = true
+		}
 		ex.entry.PC = append([]Term(nil), st.PC...)
 		ex.canary(st, "entry")
 	}
@@ -594,6 +623,7 @@ func (ex *Exec) Verify() {
 		}
 		ex.canary(st, "return")
 		renv := *env
+		renv.bound = env.bound
 		renv.vars = make(map[string]EV, len(env.vars)+4)
 		for k, v := range env.vars {
 			renv.vars[k] = v
@@ -659,10 +689,6 @@ func (ex *Exec) frameCheck(st *State, env *Env, fc *FuncContract) {
 		if cur.S == old.S || whole[name] {
 			continue
 		}
-		if strings.HasPrefix(name, "calls:") {
-			// call logs grow by construction (logged callees); what they contain is specified by ensures clauses
-			continue
-		}
 		var goal Term
 		if !strings.HasPrefix(cur.Sort, "(Array") {
 			goal = Eq(cur, old)
@@ -676,4 +702,71 @@ func (ex *Exec) frameCheck(st *State, env *Env, fc *FuncContract) {
 		}
 		ex.oblige(st, "frame", name, fc.Props, goal, "only the locations in the modifies clause change")
 	}
+}
+
+// allocateFor: a callee that returns a freshly allocated object of type t has written that
+// object's storage: the heap components that can hold it are unknown at the new object (and
+// only there).
+func (ex *Exec) allocateFor(st *State, res Val, t types.Type) {
+	upd := func(name, sort string, ref Term, isRef bool) {
+		if isRef {
+			ex.markRef(name)
+		}
+		cur := ex.heap(st, name, sort)
+		inner := strings.TrimSuffix(strings.TrimPrefix(sort, "(Array Int "), ")")
+		st.Heaps[name] = Ite(Eq(ref, IntT(0)), cur, Store(cur, ref, ex.freshHeapVal(st, name, "new", inner)))
+		ex.recordWrite(name, LHeap1, ref, sort)
+	}
+	switch u := t.Underlying().(type) {
+	case *types.Slice:
+		sv, ok := res.(SliceV)
+		if !ok {
+			return
+		}
+		if k := kindOf(u.Elem()); k != KStruct && k != KArray {
+			for _, c := range leafComps(u.Elem()) {
+				upd("[]"+typeKey(u.Elem())+c.Suffix, Arr2Sort(c.Sort), sv.Arr, isRefComp(u.Elem(), c))
+			}
+		}
+	case *types.Pointer:
+		r, ok := res.(Term)
+		if !ok {
+			return
+		}
+		for _, g := range ex.ctx.specs.Ghosts {
+			for _, k := range ghostTypeKeys(u.Elem()) {
+				if g.Type == k {
+					if sort, ok := logicalSort(g.Sort); ok {
+						upd("ghost:"+g.Type+"."+g.Name, ArrSort(sort), r, g.Sort == "ref")
+					}
+				}
+			}
+		}
+		if stt := structOf(u.Elem()); stt != nil && isRepoType(u.Elem()) {
+			for i := 0; i < stt.NumFields(); i++ {
+				ft := stt.Field(i).Type()
+				if k := kindOf(ft); k == KStruct || k == KArray {
+					continue
+				}
+				for _, c := range leafComps(ft) {
+					upd(typeKey(u.Elem())+"."+stt.Field(i).Name()+c.Suffix, ArrSort(c.Sort), r, isRefComp(ft, c))
+				}
+			}
+		}
+	case *types.Interface:
+		iv, ok := res.(IfaceV)
+		if !ok {
+			return
+		}
+		for _, g := range ex.ctx.specs.Ghosts {
+			if sort, ok := logicalSort(g.Sort); ok && (g.Type == typeKey(t) || g.Type == "io.Writer") {
+				upd("ghost:"+g.Type+"."+g.Name, ArrSort(sort), iv.Ref, g.Sort == "ref")
+			}
+		}
+	}
+}
+
+func isRepoType(t types.Type) bool {
+	n := namedOf(t)
+	return n != nil && n.Obj().Pkg() != nil && strings.HasPrefix(n.Obj().Pkg().Path(), repoModule)
 }
